@@ -275,7 +275,8 @@ theorem tr_insert_of_spec {s s' : State} {calls : List Call} (hm : MInv s) (hne 
     have := isElement_lt (hm.elems h hh)
     rw [e] at this
     exact absurd (Nat.lt_of_lt_of_le this hfresh) (Nat.lt_irrefl _)
-  refine (Tr.of_edits hm' (cfgOf_sameButOpen hm f hx) he [a] L (newAnnot ns tag a) ?_ ?_ ?_).conseq ?_
+  refine (Tr.of_edits hm' (cfgOf_sameButOpen hm f hx) he [a] L (newAnnot ns tag a)
+    (FreshIds.of_size (by intro n hn; simp only [List.mem_singleton] at hn; subst hn; exact hfresh)) ?_ ?_ ?_).conseq ?_
   · intro tc htc; exact hL tc (tcOk_of_ext htc hx)
   · intro x hxa h hh hn
     have hcase : h ∈ s.openElems ∨ h = a := by
@@ -365,8 +366,8 @@ theorem Tr.reaux {s s' : State} {c : List Call} {R R' : Aux → Aux → Prop} (h
     (hg : ∀ x x', AuxSame x' (g x x') ∧ (g x x').stopped = x'.stopped ∧ (g x x').out.switch = x'.out.switch ∧
       (g x x').out.script = x'.out.script)
     (hr : ∀ x x', AuxOk s x → AuxOk s' x' → R x x' → R' x (g x x')) : Tr s s' c R' := by
-  obtain ⟨hm, hc, he, ids, f⟩ := h
-  refine ⟨hm, hc, he, ids, fun x rest hx hs => ?_⟩
+  obtain ⟨hm, hc, he, ids, hfi, f⟩ := h
+  refine ⟨hm, hc, he, ids, hfi, fun x rest hx hs => ?_⟩
   obtain ⟨x', l, r⟩ := f x rest hx hs
   obtain ⟨hsame, hst, hsw, hsc⟩ := hg x x'
   refine ⟨g x x', ⟨⟨by rw [hst]; exact l.aux.live, by rw [hsame.annot]; exact l.aux.annot,
@@ -526,12 +527,12 @@ theorem flat_of_flat {calls : List Call} {L : List (Edit Id Tag)} {tc : Id → I
 /-- **glue**, up to the splitting of text insertions: a stretch whose DOM calls are, up to `flatCalls`,
 the edits `L` -/
 theorem Tr.of_flat {s s' : State} {calls : List Call} (hm' : MInv s') (hc : cfgOf s' = cfgOf s)
-    (he : Ext2 s calls s') (ids : List Id) (L : List (Edit Id Tag)) (na : List Id)
+    (he : Ext2 s calls s') (ids : List Id) (L : List (Edit Id Tag)) (na : List Id) (hfi : FreshIds s ids)
     (hcalls : ∀ tc, TcOk s'.dom tc → flatCalls (edits2 calls) = flatCalls (L.map (editCall tc)))
     (hann : ∀ x, AuxOk s x → (∀ h ∈ s'.openElems, nameOf s'.dom h = annotName → (x.annot ++ na).contains h = ipOfDom s'.dom h))
     (hna : ∀ a ∈ na, s'.dom.isElement a = true) :
     Tr s s' calls (fun x x' => x' = x.step ids.length L na ∧ ∃ rest, x.supply = ids ++ rest) := by
-  refine ⟨hm', hc, he.ext, ids, fun x rest hx hs => ⟨x.step ids.length L na, ⟨⟨hx.live, hann x hx, ?_, ?_⟩, ?_, rfl, rfl, rfl, ?_⟩, rfl, rest, hs⟩⟩
+  refine ⟨hm', hc, he.ext, ids, hfi, fun x rest hx hs => ⟨x.step ids.length L na, ⟨⟨hx.live, hann x hx, ?_, ?_⟩, ?_, rfl, rfl, rfl, ?_⟩, rfl, rest, hs⟩⟩
   · intro a ha
     rcases List.mem_append.mp ha with h | h
     · exact isElement_ext he.ext (hx.annotEl a h)
@@ -616,7 +617,7 @@ theorem pc_appendText {s : State} (hm : MInv s) (text : Str) :
   rintro r s' calls he ⟨hr, hs, place, hplace, hflat⟩
   refine ⟨hr, hs, ?_⟩
   refine (Tr.of_flat (hm.sameTB hs he.ext) (cfgOf_of_same hm hs he.ext) he []
-    (text.map fun c => Edit.insertText place [c]) [] ?_
+    (text.map fun c => Edit.insertText place [c]) [] (FreshIds.nil _) ?_
     (annot_of_sub he.ext hm (by rw [hs.openElems]; exact fun _ h => h)) (by simp)).conseq ?_
   · intro tc htc
     rw [hflat tc htc, flatCalls_chars]
@@ -654,7 +655,7 @@ theorem pc_appendText_chars {s : State} (hm : MInv s) (text : Str) :
   rintro r s' calls he ⟨hr, hs, place, hplace, hflat⟩
   refine ⟨hr, hs, ?_⟩
   refine (Tr.of_flat (hm.sameTB hs he.ext) (cfgOf_of_same hm hs he.ext) he []
-    (charsEdits place text) [] ?_
+    (charsEdits place text) [] (FreshIds.nil _) ?_
     (annot_of_sub he.ext hm (by rw [hs.openElems]; exact fun _ h => h)) (by simp)).conseq ?_
   · intro tc htc
     rw [hflat tc htc]
@@ -691,7 +692,7 @@ theorem pc_appendComment_ins {s : State} (hm : MInv s) (text : Str) :
 /-- the common part of `append_comment_to_doc` / `append_comment_to_html`: a comment node created and
 appended to the node `target` -/
 theorem tr_commentIn {s s' : State} {calls : List Call} (hm : MInv s) (hs : SameTB s s') (he : Ext2 s calls s')
-    (target : Id) (text : Str) (c : Id) (L : List (Edit Id Tag))
+    (target : Id) (text : Str) (c : Id) (hfc : s.dom.size ≤ c) (L : List (Edit Id Tag))
     (hL : edits calls = L.map (editCall (tcOf s.dom)))
     (hspec : ∀ rest log0, Spec.TreeAlgo2.insertCommentAsLastChildOf (absState s (c :: rest) log0) target text
         = some (absState s rest (log0 ++ L))) :
@@ -701,7 +702,7 @@ theorem tr_commentIn {s s' : State} {calls : List Call} (hm : MInv s) (hs : Same
     simp only [Spec.TreeAlgo2.insertCommentAsLastChildOf, PState.newNode, absState, Option.map_some,
       Option.some.injEq, PState.mk.injEq, List.nil_append, true_and] at this
     exact this.symm
-  refine (Tr.of_edits (hm.sameTB hs he.ext) (cfgOf_of_same hm hs he.ext) he [c] L [] ?_
+  refine (Tr.of_edits (hm.sameTB hs he.ext) (cfgOf_of_same hm hs he.ext) he [c] L [] (FreshIds.of_size (by intro n hn; simp only [List.mem_singleton] at hn; subst hn; exact hfc)) ?_
     (annot_of_sub he.ext hm (by rw [hs.openElems]; exact fun _ h => h)) (by simp)).conseq ?_
   · intro tc htc
     rw [hL, hLe]
@@ -722,7 +723,7 @@ theorem pc_appendCommentToDoc {s : State} (hm : MInv s) (text : Str) :
         Spec.TreeModes.insertCommentIn (absF s x) (cfgOf s).document text = .ok (absF s' x'))) := by
   refine pc_conseq (PC.of_tot (tot_appendCommentToDoc s text)) ?_
   rintro r s' calls he ⟨hr, hs, c, L, hfresh, hL, hspec⟩
-  exact ⟨hr, hs, tr_commentIn hm hs he s.docHandle text c L hL hspec⟩
+  exact ⟨hr, hs, tr_commentIn hm hs he s.docHandle text c hfresh L hL hspec⟩
 
 /-- `append_comment_to_html(text)` (mod.rs:1339) is "insert a comment as the last child of the first
 element in the stack of open elements"; on the empty stack the model panics -/
@@ -739,7 +740,7 @@ theorem pc_appendCommentToHtml {s : State} (hm : MInv s) (text : Str) :
   | some h0 =>
     refine pc_conseq (PC.of_tot (tot_appendCommentToHtml s text h0 hh)) ?_
     rintro r s' calls he ⟨hr, hs, c, L, hfresh, hL, hspec⟩
-    refine ⟨hr, hs, (tr_commentIn hm hs he h0 text c L hL hspec).conseq ?_⟩
+    refine ⟨hr, hs, (tr_commentIn hm hs he h0 text c hfresh L hL hspec).conseq ?_⟩
     intro x x' hx _ h
     refine ⟨elemOf s.dom h0, ?_, h⟩
     simp only [absF_p, absP, hx.live, Bool.false_eq_true, if_false, absStack_head?, hh, Option.map_some]
@@ -819,7 +820,8 @@ theorem pc_createRoot {s : State} (hm : MInv s) (attrs : List Attr) (st : STag)
   have hm' : MInv s3 := hm.pushed f hx ho hfresh hel (fun _ => hnm) (ip_of_html hnm)
   refine ⟨a, f, ho, hfresh, hel, hnm, ?_⟩
   refine (Tr.of_edits hm' (cfgOf_sameButOpen hm f hx) he [a]
-    [Edit.create a nsHtml (rootTag attrs), Edit.insert (.lastChildOf s.docHandle) a] [] ?_
+    [Edit.create a nsHtml (rootTag attrs), Edit.insert (.lastChildOf s.docHandle) a] []
+    (FreshIds.of_size (by intro n hn; simp only [List.mem_singleton] at hn; subst hn; exact hfresh)) ?_
     (annot_push hx hm ho (by rw [hnm]; exact html_ne_annot _)) (by simp)).conseq ?_
   · intro tc htc
     rw [hdoc]
@@ -920,11 +922,11 @@ theorem Aux.fullLog_xstep {s : State} {x : Aux} (hx : AuxOk s x) (n : Nat) (o : 
 
 /-- **glue** for the extra operations: a stretch whose only DOM call is the one of `o` -/
 theorem Tr.of_xop {s s' : State} {calls : List Call} (hm : MInv s) (hm' : MInv s') (hc : cfgOf s' = cfgOf s)
-    (he : Ext2 s calls s') (ids : List Id) (o : XOp Id)
+    (he : Ext2 s calls s') (ids : List Id) (hfi : FreshIds s ids) (o : XOp Id)
     (hcalls : flatCalls (edits2 calls) = flatCalls [xopCall o])
     (ho : ∀ h ∈ s'.openElems, h ∈ s.openElems) :
     Tr s s' calls (fun x x' => x' = x.xstep ids.length o ∧ ∃ rest, x.supply = ids ++ rest) := by
-  refine ⟨hm', hc, he.ext, ids, fun x rest hx hs => ⟨x.xstep ids.length o, ⟨⟨hx.live, ?_, ?_, ?_⟩, ?_, rfl, rfl, rfl, ?_⟩, rfl, rest, hs⟩⟩
+  refine ⟨hm', hc, he.ext, ids, hfi, fun x rest hx hs => ⟨x.xstep ids.length o, ⟨⟨hx.live, ?_, ?_, ?_⟩, ?_, rfl, rfl, rfl, ?_⟩, rfl, rest, hs⟩⟩
   · have := annot_of_sub he.ext hm ho x hx
     simpa [Aux.xstep] using this
   · intro a ha; exact isElement_ext he.ext (hx.annotEl a ha)
@@ -997,7 +999,7 @@ theorem pc_setQuirksMode {s : State} (hm : MInv s) (m : QuirksMode) (hq : m = .n
     subst h1
     rw [← h2]; rfl
   · have hd : (dmode m != .noQuirks) = true := by cases m <;> first | rfl | exact absurd rfl hmq
-    refine (Tr.of_xop hm hm' hcfg hE [] (.setDocumentMode (dmode m)) ?_ (by rw [ho]; exact fun _ h => h)).conseq ?_
+    refine (Tr.of_xop hm hm' hcfg hE [] (FreshIds.nil _) (.setDocumentMode (dmode m)) ?_ (by rw [ho]; exact fun _ h => h)).conseq ?_
     · rw [hc]
       simp only [List.nil_append, xopCall, qmodeOf_dmode]
       have : isEdit2 (SinkOp.setQuirksMode m) = true := by cases m <;> first | rfl | exact absurd rfl hmq
@@ -1028,7 +1030,7 @@ theorem pc_appendDoctype {s : State} (hm : MInv s) (n p sy : Str) :
   subst hout
   have hs : SameTB s s' := hs' ▸ SameTB.afterCall ..
   refine ⟨hs, ?_⟩
-  refine (Tr.of_xop hm (hm.sameTB hs he.ext) (cfgOf_of_same hm hs he.ext) he [s.dom.size]
+  refine (Tr.of_xop hm (hm.sameTB hs he.ext) (cfgOf_of_same hm hs he.ext) he [s.dom.size] (FreshIds.of_size (by intro n hn; simp only [List.mem_singleton] at hn; subst hn; exact Nat.le_refl _))
     (.appendDoctype s.dom.size n p sy) ?_ (by rw [hs.openElems]; exact fun _ h => h)).conseq ?_
   · rw [hc]; rfl
   · rintro x x' hxa _ ⟨hx', rest, hsup⟩
@@ -1174,7 +1176,7 @@ theorem pc_addAttrsIfMissing {s : State} (hm : MInv s) (target : Id) {t : Tag} (
   subst hout
   have hs : SameTB s s' := hs' ▸ SameTB.afterCall ..
   refine ⟨hs, ?_⟩
-  refine (Tr.of_xop hm (hm.sameTB hs he.ext) (cfgOf_of_same hm hs he.ext) he []
+  refine (Tr.of_xop hm (hm.sameTB hs he.ext) (cfgOf_of_same hm hs he.ext) he [] (FreshIds.nil _)
     (.addMissingAttributes target (specTag t).attrs) ?_ (by rw [hs.openElems]; exact fun _ h => h)).conseq ?_
   · rw [hc]
     simp only [xopCall, specTag_attrs_back hp]
